@@ -2284,9 +2284,14 @@ class Field(
                 if axis in construct_axes:
                     continue
 
-                if construct.construct_type == "dimension_coordinate":
-                    # A dimension coordinate construct spans exactly
-                    # one domain axis: its data stay 1-d
+                if construct.construct_type in (
+                    "dimension_coordinate",
+                    "domain_topology",
+                    "cell_connectivity",
+                ):
+                    # A dimension coordinate, domain topology or cell
+                    # connectivity construct spans exactly one domain
+                    # axis: its data keep their dimensions
                     continue
 
                 # Find the position of the new axis
